@@ -248,7 +248,9 @@ class Check(PropertyCheck):
     # real processes
     # ------------------------------------------------------------------------------------------
     def gen_env_lines(self, rng, n):
-        keys = [b"A", b"B", b"C", b"PATH", b"LLBUILD_BUILD_ID", b"LLBUILD_LANE_ID", b"LLBUILD_TASK_ID", b"LLBUILD_CONTROL_FD", b"X Y"]
+        # (names that are proper PREFIXES of one another: "already defined" must compare the whole name up to the '=')
+        keys = [b"A", b"B", b"C", b"PATH", b"LLBUILD_BUILD_ID", b"LLBUILD_LANE_ID", b"LLBUILD_TASK_ID", b"LLBUILD_CONTROL_FD", b"X Y",
+                b"AB", b"A_FLAGS", b"CC", b"CC_FLAGS", b"CCACHE_DIR", b"PATHEXT", b"LLBUILD", b"LLBUILD_TASK"]
         vals = [b"", b"1", b"2", b"v=w", b"a b", b"/usr/bin:/bin", b"77"]
         out = []
         for _ in range(n):
